@@ -127,6 +127,7 @@ package metadata
 //@ loop 1 invariant 0 <= _n && _n <= len(m.Params) && len(reducedParams) == _n && fresh(reducedParams) && len(responses) == len(m.RetVals)
 //@ func ControllerMeta.Reduce props C01,C13,C14
 //@ requires m.Struct.Annotations != nil
+//@ requires forall(k, 0, len(m.Receivers), m.Receivers[k].Annotations != nil)
 //@ modifies any(caching.MetadataCache), any(providers.SyncedProvider)
 //@ ensures id: implies(result1 == nil, result0.Name == m.Struct.Name && result0.PkgPath == m.Struct.PkgPath && len(result0.Routes) == len(m.Receivers))
 //@ ensures prefix: implies(result1 == nil, implies(!annotations.hasAttr(*m.Struct.Annotations, "Route"), result0.RestMetadata.Path == "") && forall(k, 0, len(m.Struct.Annotations.attributes), implies(annotations.isFirst(*m.Struct.Annotations, "Route", k), result0.RestMetadata.Path == m.Struct.Annotations.attributes[k].Value)))
